@@ -3,7 +3,7 @@
 From Coq Require Import List ZArith Bool Lia Permutation.
 From MV Require Import Store.AMap Store.SetSpec Store.Generic Store.Simple Store.Indexed Store.MultiIndexed
   Store.MultiIndexedArray Store.Wrappers Store.AMapProofs Store.GenericProofs Store.SimpleProofs Store.WrappersProofs Store.NestedProofs Store.ArrayProofs
-  Store.IndexedProofs Store.MultiProofs Store.ComposeProofs.
+  Store.IndexedProofs Store.MultiProofs Store.ComposeProofs Store.ListPredsProofs.
 Import ListNotations.
 Open Scope Z_scope.
 
@@ -18,6 +18,20 @@ Proof.
   apply (refines_set_on (simple_impl hash) (s_elems) (s_WF hash) (s_ok2 hash) (simple_shard_ok hash) (history_atoms h)).
   - intros a b Ha Hb E. apply Hcf; auto.
   - apply R_empty.
+  - intros x [].
+  - apply incl_refl.
+Qed.
+
+Lemma simple_refines_exactly (hash : atom -> Z) (h : list op) :
+  collision_free hash h ->
+  Forall2 out_equiv (run (g_step (simple_impl hash)) g_empty h) (run s_step [] h).
+Proof.
+  intros Hcf.
+  apply (refines_set_exactly (simple_impl hash) s_elems (s_WF hash) (s_ok2 hash) (simple_shard_ok hash)
+           (simple_drop_exact hash) (history_atoms h)).
+  - intros a b Ha Hb E. apply Hcf; auto.
+  - apply R_empty.
+  - apply NE_empty.
   - intros x [].
   - apply incl_refl.
 Qed.
